@@ -155,7 +155,7 @@ def main(tier: str, seed: int) -> int:
     ]
     hashseeds = [(seed * 31 + i) % 1000 for i in range(16)]
     results, notes = core.run_workers("checks.c06", "run_chunk", build_cases(tier, seed),
-                                      hashseeds=hashseeds, chunks_per_proc=4)
+                                      hashseeds=hashseeds, chunks_per_proc=4, case_wall=5000, timeout=6000)
     for n in notes:
         chk.note_inconclusive(n)
     per_size: dict[int, int] = {}
